@@ -552,7 +552,7 @@ NewNode(s, d, scope) ==
               !.gen = Append(@, 0), !.born = Append(@, IF scope = 0 THEN 0 ELSE s.gen[scope]),
               !.edges = Append(@, <<>>), !.fstale = Append(@, FALSE), !.ninv = Append(@, 0),
               !.fireAll = Append(@, TRUE),
-              !.xprev = Append(@, 0), !.xstore = Append(@, <<>>), !.xdeps = Append(@, <<>>),
+              !.xprev = Append(@, 0), !.xstore = Append(@, <<>>), !.xdeps = Append(@, <<>>), !.xcell = Append(@, NoVal),
               !.setAt = Append(@, IF d.k = "var" THEN s.num ELSE -1),
               !.cell = Append(@, IF d.k = "var" THEN d.init ELSE NoVal),
               !.pend = Append(@, NoVal), !.runs = Append(@, 0),
@@ -733,6 +733,47 @@ ChangeValue(s, n, new) ==
   IN ChangeValueManual(s1, n, old, ~cut, TRUE)
 
 ---------------------------------------------------------------------------
+(* C12: ownership.  Strong references implied by a state; Retained = reachable from the roots  *)
+(* (Rc semantics; the only cycle, var node <-> Var, is a root until break_rc_cycle).           *)
+ValRefs(v) == IF Tag(v) = "n" THEN {v[2]} ELSE {}
+\* nodes a bind closure names: it owns clones of their handles
+RECURSIVE RecipeRefs(_)
+RecipeRefs(rc) ==
+  CASE rc.r = "pick" -> SeqSet(rc.alts)
+    [] rc.r \in {"map", "chain"} -> {rc.over}
+    [] rc.r = "alt" -> UNION {RecipeRefs(rc.alts[i]) : i \in 1..Len(rc.alts)}
+    [] rc.r = "bind" -> {rc.over} \cup RecipeRefs(rc.inner)
+    [] rc.r = "junk" -> RecipeRefs(rc.pre) \cup RecipeRefs(rc.then)
+    [] rc.r = "leak" -> RecipeRefs(rc.then)
+    [] OTHER -> {}
+StrongOut(s, n) ==
+  LET d == s.def[n]
+      kids == CASE d.k \in {"var", "const"} -> {}
+                [] d.k = "lhs" -> {d.ins[1]} \cup (IF s.rhs[n] = 0 THEN {} ELSE {s.rhs[n]}) \cup RecipeRefs(d.recipe)
+                [] d.k = "main" -> {d.lc, s.def[d.lc].ins[1]} \cup (IF s.rhs[d.lc] = 0 THEN {} ELSE {s.rhs[d.lc]})
+                                   \cup RecipeRefs(s.def[d.lc].recipe)
+                [] d.k = "expert" -> {s.edges[n][i].child : i \in 1..Len(s.edges[n])}
+                [] OTHER -> SeqSet(d.ins)
+      ctlrefs == IF d.k = "map" /\ "ctl" \in DOMAIN d /\ d.ctl.mode = "sum" THEN SeqSet(d.ctl.ins) ELSE {}
+  IN kids \cup ctlrefs \cup ValRefs(s.val[n]) \cup ValRefs(s.cell[n]) \cup ValRefs(s.pend[n])
+           \cup (IF d.k = "const" THEN ValRefs(d.init) ELSE {})
+Roots(s) ==
+  s.handles
+  \cup {n \in 1..s.n : s.def[n].k = "var" /\ n \notin s.broken}
+  \cup {s.onode[o] : o \in {x \in 1..s.no : s.oclones[x] > 0 \/ x \in s.allObs}}
+  \cup {n \in 1..s.n : InHeap(s, n)}
+  \cup SeqSet(s.leaked)
+  \cup {s.memos[i].over : i \in {j \in 1..Len(s.memos) : s.memos[j].over # 0}}
+RECURSIVE Reach(_, _, _)
+Reach(s, todo, acc) ==
+  IF todo = {} THEN acc ELSE
+  LET n == CHOOSE x \in todo : TRUE
+      new == StrongOut(s, n) \ (acc \cup {n})
+  IN Reach(s, (todo \ {n}) \cup new, acc \cup {n})
+Retained(s) == Reach(s, Roots(s), {})
+Released(s) == (1..s.n) \ Retained(s)
+
+---------------------------------------------------------------------------
 (* Recompute one node (node.rs:603-779)                                     *)
 \* change_child_bind_rhs (1306-1347); old = 0 means None
 ChangeChildBindRhs(s, main, old, new) ==
@@ -766,7 +807,10 @@ RecomputeLhs(s, n) ==
             s4 == IF Alive(s3, d.main) THEN ChangeChildBindRhs(s3, d.main, old, new) ELSE s3
             s5 == IF old # 0 THEN PropagateInvalidity(InvalidateList(s4, oldCreated, 1)) ELSE s4
             s6 == DGuard(s5, s5.valid[n], "dassert:lhs_valid")
-        IN ChangeValue(s6, n, Unit)
+            \* `old_rhs` is dropped here: what only it kept alive is freed at once (weak references to it,
+            \* e.g. in memo tables and created-on-rhs lists, dangle from now on)
+            s7 == IF Ok(s6) /\ old # 0 THEN [s6 EXCEPT !.rel = @ \cup (Released(s6) \ {n, s6.chain})] ELSE s6
+        IN ChangeValue(s7, n, Unit)
 
 RecomputeMain(s, n) ==
   LET r == s.rhs[s.def[n].lc] IN
@@ -853,6 +897,8 @@ ExpertValue(s, n) ==
   CASE d.f = "dep" ->     \* join / bind: value_cloned() of the current dependency
          IF s.xprev[n] = 0 \/ ~\E i \in 1..Len(s.edges[n]) : s.edges[n][i].id = s.xprev[n] THEN NoVal
          ELSE Value(s, s.edges[n][CHOOSE i \in 1..Len(s.edges[n]) : s.edges[n][i].id = s.xprev[n]].child)
+    [] d.f = "cell" ->    \* like incremental-map's per-key node: reads a cell its controlling node maintains
+         s.xcell[n]
     [] d.f = "sum" ->     \* dynamic sum over what the edge callbacks stored
          LET RECURSIVE Go(_, _)
              Go(acc, i) == IF i > Len(s.xstore[n]) THEN acc ELSE Go((acc + s.xstore[n][i].v[2]) % K, i + 1)
@@ -910,6 +956,8 @@ RunCtl(s, n, x) ==
              s2 == IF Ok(s1) /\ s.xprev[c.x] # 0 THEN ExpertRemoveDep(s1, c.x, s.xprev[c.x]) ELSE s1
          IN IF Ok(s2) THEN [s2 EXCEPT !.xprev[c.x] = dep] ELSE s2
     [] c.mode = "sum" -> CtlSum(s, c.x, c.ins, x[2])
+    [] c.mode = "cell" ->   \* store the new input in the cell, then make_stale (btree_map.rs:181-186)
+         ExpertMakeStale([s EXCEPT !.xcell[c.x] = x], c.x)
     [] c.mode = "stale" -> ExpertMakeStale(s, c.x)
     [] c.mode = "invalidate" -> IF x[2] = 1 THEN ExpertInvalidate(s, c.x) ELSE s
 
@@ -1105,7 +1153,7 @@ InitState(maxH) ==
    scope |-> <<>>, cutoff |-> <<>>, force |-> <<>>, nobs |-> <<>>, numH |-> <<>>,
    inHas |-> <<>>, mrDid |-> <<>>, rhs |-> <<>>, created |-> <<>>, gen |-> <<>>, born |-> <<>>,
    edges |-> <<>>, fstale |-> <<>>, ninv |-> <<>>, fireAll |-> <<>>,
-   xprev |-> <<>>, xstore |-> <<>>, xdeps |-> <<>>, ne |-> 0, xdead |-> {}, poisoned |-> FALSE, handles |-> {}, vhandles |-> {}, memos |-> <<>>, memoLog |-> <<>>,
+   xprev |-> <<>>, xstore |-> <<>>, xdeps |-> <<>>, xcell |-> <<>>, ne |-> 0, xdead |-> {}, poisoned |-> FALSE, handles |-> {}, vhandles |-> {}, memos |-> <<>>, memoLog |-> <<>>,
    setAt |-> <<>>, cell |-> <<>>, pend |-> <<>>,
    \* observers
    no |-> 0, onode |-> <<>>, ostate |-> <<>>, osubs |-> <<>>, onext |-> <<>>, oclones |-> <<>>,
@@ -1159,6 +1207,14 @@ ApiXJoin(s, in) ==
       e == s1.n
       s2 == NewNode(s1, [k |-> "map", f |-> "id", cap |-> NoVal, ins |-> <<in>>, eff |-> <<>>,
                          ctl |-> [mode |-> "join", x |-> e]], s1.curScope)
+  IN ExpertAddDep(s2, e, s2.n, "none")
+\* a cell node: expert node E (id n+1) whose value is a cell written by its controlling map L (id n+2)
+\* over `in`, which calls make_stale on E whenever `in` changes (the per-key node of incr_mapi_)
+ApiXCell(s, in) ==
+  LET s1 == ApiExpert(s, "cell")
+      e == s1.n
+      s2 == NewNode(s1, [k |-> "map", f |-> "id", cap |-> NoVal, ins |-> <<in>>, eff |-> <<>>,
+                         ctl |-> [mode |-> "cell", x |-> e]], s1.curScope)
   IN ExpertAddDep(s2, e, s2.n, "none")
 \* dynamic sum of the first sel-many nodes of ins
 ApiXSum(s, sel, ins) ==
